@@ -448,7 +448,7 @@ class FilterAnalyzer(desc.ResetMixin):
         freqs = tsu.get_freqs(self.sampling_rate, self.data.shape[-1])
 
         if self.ub is None:
-            self.ub = freqs[-1]
+            self.ub = self.sampling_rate / 2.  # the Nyquist frequency
 
         power = fftpack.fft(self.data)
         idx_0 = np.hstack([np.where(freqs < self.lb)[0],
